@@ -8,6 +8,8 @@
 (*     cached or the cached one is older than the expiration, and is not    *)
 (*     consulted while the cached answer is younger (negative answers       *)
 (*     included).                                                           *)
+(*   - lookups running side by side (op "clookup", IdCacheConc.tla) see     *)
+(*     nothing of each other: each returns what the store holds.            *)
 (* Time is judged with [t0,t1] intervals as for C19: "must be expired" iff  *)
 (* s0 > c1 + E, "cannot be expired" iff s1 <= c0 + E.                       *)
 EXTENDS Integers, Sequences, FiniteSets, TLC
@@ -20,11 +22,21 @@ KInit(expiration, never) == [ exp |-> expiration,
                        never |-> never,   \* the expiration is so long that it cannot pass during a trace
                        ans |-> EmptyFn,    \* key -> [value, c0, c1] of the last store consultation
                        hard |-> EmptyFn,   \* key -> hard-coded value
+                       cseen |-> {},       \* keys the store was consulted for by lookups running side by side
                        flags |-> << >> ]
 
 KStep(m0, r) ==
     LET m == [m0 EXCEPT !.flags = << >>] IN
     IF r.op = "hardcode" THEN [m EXCEPT !.hard = PutFn(@, r.key, r.ret)]
+    ELSE IF r.op = "clookup" THEN
+        \* lookups of several goroutines against an unchanging store and entries that do not expire
+        \* (IdCacheConc.tla): whatever else is going on, the answer is the store's, and the store is asked once
+        [m EXCEPT !.flags = (IF r.ret # r.store_said
+                             THEN << KFlag("a lookup running next to others did not return what the backing store holds") >> ELSE << >>)
+                            \o (IF r.called /\ r.key \in m.cseen
+                                THEN << KFlag("the backing store was consulted twice for one key that does not expire") >> ELSE << >>)
+                            \o (IF r.called /\ r.key \in {"", "unset"} THEN << KFlag("the empty or unset id was looked up") >> ELSE << >>),
+                  !.cseen = IF r.called THEN @ \cup {r.key} ELSE @]
     ELSE IF r.op # "lookup" THEN m
     ELSE IF r.key \in {"", "unset"} THEN
         [m EXCEPT !.flags = IF r.ret # "" \/ r.called THEN << KFlag("the empty or unset id was looked up") >> ELSE << >>]
